@@ -127,6 +127,103 @@ def prune_stages(tier):
     return st
 
 
+# ---- seeded random histories (deeper than the exhaustive bound), same operand alphabets as MC_AffTree history mode
+def _aff(m, b):
+    return {'m': m, 'b': b, 'q': 1}
+
+
+def _script_of(tree):
+    # tree = ('L', aff) | ('D', pred, [kid0, kid1]) with kid None = missing; DFS preorder, ascending labels (as ScriptOf "dfs")
+    ops = [{'op': 'from_aff', 'p': 0, 'l': 0, 'a': tree[1]}]
+    nxt = [1]
+
+    def rec(t, idx):
+        if t[0] != 'D':
+            return
+        for lab, kid in enumerate(t[2]):
+            if kid is None:
+                continue
+            me = nxt[0]
+            nxt[0] += 1
+            ops.append({'op': 'add_child', 'p': idx, 'l': lab, 'a': kid[1]})
+            rec(kid, me)
+    rec(tree, 0)
+    return ops
+
+
+H_ID2 = _aff([[1, 0], [0, 1]], [0, 0])
+H_COMPOSE = [('D', _aff([[1, 0]], [0]), [('L', H_ID2), ('L', _aff([[0, 0], [0, 1]], [0, 0]))]),
+             ('D', _aff([[1, 0]], [0]), [None, ('L', _aff([[0, 0], [0, 1]], [0, 0]))]),
+             ('D', _aff([[0, 1]], [1]), [('L', _aff([[0, 1], [1, 0]], [1, -2])), ('L', H_ID2)]),
+             ('L', _aff([[0, 1], [1, 0]], [1, -2]))]
+H_ARITH = [('D', _aff([[1]], [0]), [('L', _aff([[1], [-1]], [0, 0])), ('L', _aff([[0], [1]], [1, 1]))]),
+           ('D', _aff([[-1]], [-1]), [('L', _aff([[2], [0]], [0, 1])), None]),
+           ('L', _aff([[1], [2]], [0, 1]))]
+H_AFF = [_aff([[0, 1], [1, 0]], [1, -2]), _aff([[1, 1], [0, 2]], [0, 0])]
+H_PRED1 = [_aff([[1]], [0]), _aff([[-1]], [-1]), _aff([[1]], [-1]), _aff([[-1]], [0]), _aff([[0]], [-1])]
+H_TERM12 = [_aff([[1], [-1]], [0, 0]), _aff([[0], [1]], [1, 1])]
+
+
+def _rand_tree(rnd, depth):
+    if depth == 0 or rnd.random() < 0.3:
+        return ('L', rnd.choice(H_TERM12))
+    kids = [None if rnd.random() < 0.15 else _rand_tree(rnd, depth - 1) for _ in range(2)]
+    if kids[0] is None and kids[1] is None:
+        kids[rnd.randrange(2)] = ('L', rnd.choice(H_TERM12))
+    return ('D', rnd.choice(H_PRED1), kids)
+
+
+def history_random(seed, tier):
+    rnd = random.Random(4242 + seed)
+    n_hist, depth = (60, 5) if tier == 'quick' else (600, 6)
+    noaff = {'m': [], 'b': [], 'q': 1}
+    scripts = []
+    for _ in range(n_hist):
+        steps = []
+        size = 1
+        for _ in range(depth):
+            r = rnd.random()
+            if r < 0.22:
+                steps.append({'op': 'eliminate', 'rhs': [], 'aff': noaff})
+            elif r < 0.32:
+                steps.append({'op': 'reduce', 'rhs': [], 'aff': noaff})
+            elif r < 0.38:
+                steps.append({'op': 'neg', 'rhs': [], 'aff': noaff})
+            elif r < 0.48:
+                steps.append({'op': 'apply_func', 'rhs': [], 'aff': rnd.choice(H_AFF)})
+            elif r < 0.80 and size < 4:
+                size += 1
+                steps.append({'op': rnd.choice(['compose', 'compose_prune']), 'rhs': _script_of(rnd.choice(H_COMPOSE)), 'aff': noaff})
+            elif size < 4:
+                size += 1
+                steps.append({'op': rnd.choice(['add', 'sub']), 'rhs': _script_of(rnd.choice(H_ARITH)), 'aff': noaff})
+            else:
+                steps.append({'op': 'eliminate', 'rhs': [], 'aff': noaff})
+        scripts.append({'fam': 'afftree', 'k': 2, 'q': 1, 'mode': 'history', 'lhs': _script_of(_rand_tree(rnd, 2)), 'steps': steps,
+                        'faults': [], 'all': True})
+    return scripts
+
+
+def history_stages(tier):
+    # exhaustive histories of depth 2 (3) merged on the reached tree, plus seeded random histories of depth 5-6 (every step recorded)
+    rnd_stage = Stage('history-random', 'Trace_AffTree', gen=history_random, nontrivial=history_nontrivial, shard_events=40)
+    if tier == 'thorough':
+        return [HS('history-t', 'MC_AffTree_history_t.cfg'), rnd_stage]
+    return [HS('history-q', 'MC_AffTree_history_q.cfg'), rnd_stage]
+
+
+def c04_stages(tier):
+    return history_stages(tier) + prune_stages(tier)[:1]
+
+
+def c05_stages(tier):
+    return history_stages(tier) + prune_stages(tier)
+
+
+def c06_stages(tier):
+    return [s for s in prune_stages(tier) if not s.name.startswith('prunea')]
+
+
 def fault_stages(tier):
     if tier == 'thorough':
         return [HS('fault-t', 'MC_AffTree_fault_t.cfg')]
@@ -134,7 +231,9 @@ def fault_stages(tier):
 
 
 def c07_stages(tier):
-    st = [AT('arith-q', 'MC_AffTree_arith_q.cfg'), AT('arithaff-q', 'MC_AffTree_arithaff_q.cfg')]
+    st = [AT('arith-q', 'MC_AffTree_arith_q.cfg'), AT('arithaff-q', 'MC_AffTree_arithaff_q.cfg'),
+          # operands that carry cached feasibility states from an earlier elimination
+          HS('prunea-q', 'MC_AffTree_prunea_q.cfg')]
     if tier == 'thorough':
         st += [AT('arith-t', 'MC_AffTree_arith_t.cfg')]
     return st
@@ -206,6 +305,42 @@ CHECKS = {
         'design_ref': 'DESIGN.md 6/C11',
         'rule': 'one scenario per (tree, operation); evaluations = fault plans executed; non-trivial = the tree has a decision (so at least one LP call)',
         'assumptions': ['the LP tap hook is the only source of faults; solver answers are otherwise real'],
+    },
+    'C04': {
+        'stages': c04_stages,
+        'level_text': 'All operation histories of depth <= 2 (3) over {eliminate, reduce, neg, apply_func, compose, compose<prune>, +, -} from '
+                      'all trees with <= 1 decision of the alphabet (merged by VIEW on the reached tree), plus TLC -simulate random histories '
+                      'of depth 6, are explored on the L1 model with the invariant "well-formed, caches sound, step has the meaning of its '
+                      'operation"; every history is replayed and TLC checks on every recorded post-state: node functions have in_dim columns, '
+                      'terminals share one output dimension, decisions have 1..log2(K) rows, leaf <=> no children, links consistent, and no '
+                      'operation panicked on well-formed dimension-compatible operands. Alphabets have terminal out-dim 2 and 1-row predicates, '
+                      'so a decision turned into a leaf is seen as a terminal with a different output dimension.',
+        'level_note': AFFTREE_NOTE,
+        'design_ref': 'DESIGN.md 6/C04',
+        'rule': 'one script per model transition (history prefix + operation); distinct by canonical hash; non-trivial = start tree has a decision',
+        'assumptions': ['E-universe integer data; q=1', '"holds a terminal function" is decided through the common output dimension (alphabets with out-dim 2)'],
+    },
+    'C05': {
+        'stages': c05_stages,
+        'level_text': 'On the same histories and on the pruning pipelines TLC checks after every recorded step: every witness stored at a node '
+                      'satisfies all closed path conditions of that node (fixed-point tolerance), and every node marked infeasible has a path '
+                      'region without interior (decided by FM); inductively, so a violation is attributed to the step that introduced it. '
+                      'The model carries the same cache states (inherit / LP / forward) and the invariant CacheSound.',
+        'level_note': AFFTREE_NOTE + ' Witness coordinates are compared at resolution 1e-5 (coarser than the library\'s 1e-8).',
+        'design_ref': 'DESIGN.md 6/C05',
+        'rule': 'as C04; non-trivial = start tree has a decision',
+        'assumptions': ['caches are only created through API pipelines (eliminate / compose / arithmetic), never written by hand'],
+    },
+    'C06': {
+        'stages': c06_stages,
+        'level_text': 'For every total tree of the pruning alphabets (infeasible, zero-width, zero-row and feasible paths at every position) and '
+                      'the eliminate / compose / eliminate pipelines, the model checks and TLC re-checks on the recorded real result: no node below '
+                      'the root with an empty closed path region, no single-branch decision below the root, a second elimination leaves the '
+                      'tree (shape, indices, functions) unchanged.',
+        'level_note': AFFTREE_NOTE,
+        'design_ref': 'DESIGN.md 6/C06',
+        'rule': 'one history script per (tree, pipeline); non-trivial = the tree has a decision',
+        'assumptions': ['E-universe integer data: an empty closed region is empty by a margin far above the LP tolerance'],
     },
     'C07': {
         'stages': c07_stages,
